@@ -1,7 +1,223 @@
+import LoraVerif.Gen.CmdTables
+import LoraVerif.Model.MacCmdCreators
+import LoraVerif.Model.HexText
+import LoraVerif.Spec.MacCmdSpec
+import LoraVerif.Spec.HexTextSpec
 import Driver.Util
-/-! Suite C19: line-protocol handlers (stub — replaced when the property's model is built). -/
+import Driver.C03
+/-! Suite C19: command builders → bytes → parsers/accessors; command sequences through
+`build_mac_commands`; text forms.  Model = creators/iterators/accessors as coded over the generated
+tables; spec = field layouts of the specifications (`Spec.MacCmd.build/decode`), MSB-first hex. -/
+open MacCmd
 namespace Driver.C19
+open Driver.C03 (hexOrDash natsOfHex? toyCipher toyEnc toyDec tableOf? showItem showSpecAccessors joinItems)
 
-def handle (_ws : List String) : String := "bad-op"
+/-- `name=arg`: decimal (possibly negative), `x<hex>` (octets), `<id>:x<hex>` (push) -/
+def parseArg (ty setter : String) (s : String) : Option Arg :=
+  if s.startsWith "x" then (natsOfHex? (let h := (s.drop 1).toString; if h.isEmpty then "-" else h)).map Arg.bytes
+  else match s.splitOn ":x" with
+    | [id, h] => match id.toNat?, natsOfHex? (if h.isEmpty then "-" else h) with
+      | some i, some b => some (.item i b)
+      | _, _ => none
+    | _ =>
+      match parseInt? s with
+      | some v => if ty == "DevStatusAnsPayload" && setter == "set_margin" then some (.i v) else some (.n v.toNat)
+      | none => none
+
+def parseCalls (ty : String) (s : String) : Option (List (String × Arg)) :=
+  if s == "-" then some []
+  else (s.splitOn ";").mapM (fun c =>
+    match c.splitOn "=" with
+    | [n, a] => (parseArg ty n a).map (fun a => (n, a))
+    | _ => none)
+
+def specArg : Arg → Spec.MacCmd.Arg
+  | .n v => .n v
+  | .i v => .i v
+  | .bytes b => .bytes b
+  | .item i a => .item i a
+
+def showRes (rs : List SetRes) : String :=
+  if rs.isEmpty then "-" else ",".intercalate (rs.map (fun r => match r with | .ok => "ok" | .err e => "ERR:" ++ e))
+
+def showSpecRes (rs : List (Option String)) : String :=
+  if rs.isEmpty then "-" else ",".intercalate (rs.map (fun r => match r with | none => "ok" | some e => "ERR:" ++ e))
+
+/-- the spec's view of a stream: like `Driver.C03.specIter` but with the specification's own decode of every field
+(no exception for DeviceTimeAns: C19 is where that disagreement is judged) -/
+def specParse (T : List Spec.MacCmd.Cmd) (data : List Nat) : String :=
+  let (items, rest) := Spec.MacCmd.splitAll T data
+  let showI : Spec.MacCmd.Item → String
+    | .cmd c p => s!"{Driver.C03.hex2 c.cid}:{c.name}:{hexOrDash p}" ++ "{" ++ showSpecAccessors (Spec.MacCmd.decode toyEnc (c.name ++ "Payload") p) ++ "}"
+    | .unknown cid => s!"ERR:unknown:{Driver.C03.hex2 cid}"
+    | .truncated cid => s!"ERR:trunc:{Driver.C03.hex2 cid}"
+  s!"{joinItems (items.map showI)} rest={hexOrDash rest}"
+
+def modelCmd (T : Table) (variant callsS : String) : String :=
+  match T.find? (fun e => e.variant == variant) with
+  | none => "bad-op"
+  | some e =>
+    match parseCalls e.payload callsS with
+    | none => "bad-op"
+    | some calls =>
+      match buildWith toyCipher e calls with
+      | .panic _ => "PANIC"
+      | .ok (rs, b) => s!"r={showRes rs} bytes={hexOrDash b} parse={Driver.C03.modelIter T b}"
+
+def specCmd (S : List Spec.MacCmd.Cmd) (variant ty callsS : String) : String :=
+  match S.find? (fun c => c.name == variant) with
+  | none => "bad-op"
+  | some c =>
+    match parseCalls ty callsS with
+    | none => "bad-op"
+    | some calls =>
+      match Spec.MacCmd.build toyDec c (calls.map (fun (n, a) => (n, specArg a))) with
+      | none => "bad-op"
+      | some (rs, b) => s!"r={showSpecRes rs} bytes={hexOrDash b} parse={specParse S b}"
+
+/-- `Cmd@calls` words of a `seq` op -/
+def parseSeqWord (w : String) : Option (String × String) :=
+  match w.splitOn "@" with
+  | [v, c] => some (v, c)
+  | _ => none
+
+def modelSeq (T : Table) (cap : Nat) (ws : List String) : String :=
+  let built := ws.mapM (fun w => do
+    let (v, cs) ← parseSeqWord w
+    let e ← T.find? (fun e => e.variant == v)
+    let calls ← parseCalls e.payload cs
+    match buildWith toyCipher e calls with
+    | .ok (_, b) => some b
+    | .panic _ => none)
+  match built with
+  | none => "PANIC"
+  | some cmds =>
+    match buildMacCommands cmds (List.replicate cap 0) with
+    | .panic _ => "PANIC"
+    | .ok none => "ERR:BufferTooShort"
+    | .ok (some (buf, n)) => s!"n={n} bytes={hexOrDash (buf.take n)} parse={Driver.C03.modelIter T (buf.take n)}"
+
+def specSeq (S : List Spec.MacCmd.Cmd) (T : Table) (cap : Nat) (ws : List String) : String :=
+  let built := ws.mapM (fun w => do
+    let (v, cs) ← parseSeqWord w
+    let c ← S.find? (fun c => c.name == v)
+    let e ← T.find? (fun e => e.variant == v)
+    let calls ← parseCalls e.payload cs
+    let (_, b) ← Spec.MacCmd.build toyDec c (calls.map (fun (n, a) => (n, specArg a)))
+    some b)
+  match built with
+  | none => "bad-op"
+  | some cmds =>
+    match Spec.MacCmd.buildSeq cmds cap with
+    | none => "ERR:BufferTooShort"
+    | some all => s!"n={all.length} bytes={hexOrDash all} parse={specParse S all}"
+
+/-! ### text forms -/
+
+/-- (kind, octets, backing integer bits) per type name -/
+def textKind : String → Option (String × Nat × Nat)
+  | "DevAddr" => some ("newtype", 4, 32) | "McAddr" => some ("newtype", 4, 32)
+  | "PDevEui" => some ("newtype", 8, 64) | "JoinEui" => some ("newtype", 8, 64)
+  | "DevNonce" => some ("newtype", 2, 16)
+  | "JoinNonce" => some ("newtype", 3, 32) | "NetId" => some ("newtype", 3, 32)
+  | "AppKey" => some ("key", 16, 0) | "NwkSKey" => some ("key", 16, 0) | "AppSKey" => some ("key", 16, 0)
+  | "McRootKey" => some ("key", 16, 0) | "McKEKey" => some ("key", 16, 0) | "McNetSKey" => some ("key", 16, 0)
+  | "McAppSKey" => some ("key", 16, 0) | "GenAppKey" => some ("key", 16, 0) | "McKey" => some ("key", 16, 0)
+  | "KDevEui" => some ("eui", 8, 0) | "AppEui" => some ("eui", 8, 0)
+  | _ => none
+
+def hexErrName : HexText.HexErr → String
+  | .OddLength => "OddLength" | .InvalidStringLength => "InvalidStringLength" | .InvalidHexCharacter => "InvalidHexCharacter"
+
+def modelToString (kind : String) (b : List Nat) : List Char :=
+  if kind == "newtype" then HexText.newtypeToString b
+  else if kind == "key" then HexText.keyToString b
+  else HexText.euiToString b
+
+def modelFromStr (kind : String) (n bits : Nat) (s : List Char) : String :=
+  if kind == "newtype" then (match HexText.newtypeFromStr n bits s with | some b => hexOrDash b | none => "ERR")
+  else if kind == "key" then (match HexText.keyFromStr s with | .ok b => hexOrDash b | .error e => "ERR:" ++ hexErrName e)
+  else (match HexText.euiFromStr s with | .ok b => hexOrDash b | .error e => "ERR:" ++ hexErrName e)
+
+def specToString (kind : String) (b : List Nat) : List Char :=
+  if kind == "key" then Spec.HexText.ofKey b else Spec.HexText.ofWireLe b
+
+def specFromStr (kind : String) (n : Nat) (s : List Char) : Option (List Nat) :=
+  if kind == "key" then Spec.HexText.toKey n s else Spec.HexText.toWireLe n s
+
+def textAnswer (ty : String) (b : List Nat) : Option (String × String) :=
+  match textKind ty with
+  | none => none
+  | some (kind, n, bits) =>
+    if b.length ≠ n then none
+    else
+      let ms := modelToString kind b
+      let ss := specToString kind b
+      let sback := match specFromStr kind n ss with | some r => hexOrDash r | none => "ERR"
+      some (s!"s={String.ofList ms} back={modelFromStr kind n bits ms}", s!"s={String.ofList ss} back={sback}")
+
+def isCanonical (n : Nat) (s : List Char) : Bool :=
+  s.length == 2 * n && s.all (fun c => (Spec.HexText.nibbleVal? c).isSome)
+
+def fnvStr (h : Fnv) (s : String) : Fnv := (s.toUTF8.foldl (fun h b => h.byte b) h).byte 10
+
+/-- substitute `{a}` and `{b}` in a template -/
+def subst (t : String) (a b : Nat) : String := (t.replace "{a}" (toString a)).replace "{b}" (toString b)
+
+def handle (ws : List String) : String :=
+  match ws with
+  | ["cmd", set, variant, calls] =>
+    match tableOf? set, Spec.MacCmd.setByName set with
+    | some T, some S =>
+      let ty := (T.find? (fun e => e.variant == variant)).map (·.payload) |>.getD ""
+      s!"{modelCmd T variant calls}|{specCmd S variant ty calls}"
+    | _, _ => "bad-op"
+  | ["cmd_digest", set, variant, tmpl, na, nb] =>
+    match tableOf? set, Spec.MacCmd.setByName set, na.toNat?, nb.toNat? with
+    | some T, some S, some na, some nb =>
+      let ty := (T.find? (fun e => e.variant == variant)).map (·.payload) |>.getD ""
+      Id.run do
+        let mut hm : Fnv := {}
+        let mut hs : Fnv := {}
+        for a in [0:na] do
+          for b in [0:nb] do
+            let c := subst tmpl a b
+            hm := fnvStr hm (modelCmd T variant c)
+            hs := fnvStr hs (specCmd S variant ty c)
+        return s!"{hex64 hm.h}|{hex64 hs.h}"
+    | _, _, _, _ => "bad-op"
+  | "seq" :: set :: cap :: cmds =>
+    match tableOf? set, Spec.MacCmd.setByName set, cap.toNat? with
+    | some T, some S, some cap => s!"{modelSeq T cap cmds}|{specSeq S T cap cmds}"
+    | _, _, _ => "bad-op"
+  | ["text", ty, hex] =>
+    match natsOfHex? hex with
+    | some b => match textAnswer ty b with
+      | some (m, s) => s!"{m}|{s}"
+      | none => "bad-op"
+    | none => "bad-op"
+  | ["text_digest", ty, pre] =>
+    -- all values whose leading wire octets are `pre` followed by one free octet
+    match natsOfHex? pre, textKind ty with
+    | some p, some (_, n, _) =>
+      if p.length + 1 ≠ n then "bad-op"
+      else Id.run do
+        let mut hm : Fnv := {}
+        let mut hs : Fnv := {}
+        for x in [0:256] do
+          match textAnswer ty (p ++ [x]) with
+          | some (m, s) => hm := fnvStr hm m; hs := fnvStr hs s
+          | none => pure ()
+        return s!"{hex64 hm.h}|{hex64 hs.h}"
+    | _, _ => "bad-op"
+  | ["textparse", ty, str] =>
+    match textKind ty with
+    | some (kind, n, bits) =>
+      let s := if str == "-" then [] else str.toList
+      let m := modelFromStr kind n bits s
+      let sp := if isCanonical n s then (match specFromStr kind n s with | some r => hexOrDash r | none => "ERR") else "-"
+      s!"{m}|{sp}"
+    | none => "bad-op"
+  | _ => "bad-op"
 
 end Driver.C19
